@@ -8,6 +8,7 @@ import (
 	"go/types"
 	"sort"
 
+	"golang.org/x/tools/go/packages"
 	"golang.org/x/tools/go/ssa"
 )
 
@@ -81,4 +82,12 @@ func (g *Gen) defOrdinal(fr *frame, id *ast.Ident) int {
 		}
 	}
 	return fr.defPosOrd[id.Pos()]
+}
+
+// OnAlloc: ghost initialisation of freshly allocated objects (e.g. new(big.Int) has value 0)
+type OnAlloc struct {
+	Type  string
+	Ghost string
+	Val   *Expr
+	Pkg   *packages.Package
 }
